@@ -7,6 +7,7 @@ pub mod shard;
 pub mod shard_ops;
 pub mod deduper;
 pub mod session;
+pub mod session_faults;
 pub mod cache_seq;
 pub mod cache_conc;
 pub mod reconstruct;
@@ -25,6 +26,8 @@ pub fn run(suite: &str, ctx: &mut Ctx) -> bool {
         "reconstruct" => reconstruct::run(ctx),
         "cache_seq" => cache_seq::run(ctx),
         "cache_conc" => cache_conc::run(ctx),
+        "session_faults" => session_faults::run_parent(ctx),
+        "session_faults-child" => session_faults::run_child(ctx),
         "session" => session::run_parent(ctx),
         "session-child" => session::run_child(ctx),
         "deduper" => deduper::run_parent(ctx),
